@@ -153,11 +153,39 @@ class Crate:
             return [("ref", v.get("@id"))]
         return [v]
 
+    def dataset_file_shas(self, e, depth=0):
+        out = []
+        if depth > 12:
+            return out
+        for part in e.get("hasPart", []) or []:
+            p = self.graph.get(part.get("@id")) if isinstance(part, dict) else None
+            if not p:
+                out.append("<dangling>")
+            elif "File" in _types(p):
+                out.append(p.get("sha1"))
+            elif "Dataset" in _types(p):
+                out.extend(self.dataset_file_shas(p, depth + 1))
+        return out
+
     def find_value(self, refs, name, value, file_sha):
         """is parameter `name` with the run's `value` represented among the referenced entities?
         -> (True, None) | (False, reason) where reason is text or ('name-lost', sha1, basename, recorded names)"""
         ents = [self.graph.get(r.get("@id")) for r in refs if isinstance(r, dict)]
         ents = [e for e in ents if e]
+        if isinstance(value, dict) and value.get("class") == "Directory":
+            # a Dataset among the action's values whose (recursive) parts are File entities with exactly the
+            # checksums of the files of the directory
+            want = sorted(directory_file_shas(value, file_sha))
+            seen = []
+            for e in ents:
+                if "Dataset" in _types(e):
+                    got = sorted(self.dataset_file_shas(e))
+                    if got == want:
+                        return True, None
+                    seen.append(got)
+            if not want and any("Dataset" in _types(e) for e in ents):
+                return True, None
+            return False, f"no Dataset with the directory's files {want}; datasets found carry {seen}"[:600]
         if isinstance(value, dict) and value.get("class") == "File":
             sha, bn = file_sha(value), value.get("basename") or os.path.basename(value.get("path", ""))
             hit = [self.graph.get(sha) for e in ents
@@ -187,6 +215,25 @@ class Crate:
             return False, lost
         return False, (f"PropertyValue {name!r} carries {json.dumps([self.leaves(e.get('value')) for e in cands], default=list)[:300]}, "
                        f"the run's value is {json.dumps(want, default=list)[:300]}")
+
+
+def directory_file_shas(v, file_sha):
+    """sha1 of every file below a CWL Directory value (from its listing, else from the directory on disk)"""
+    out = []
+    if "listing" in v:
+        for x in v["listing"]:
+            if x.get("class") == "File":
+                out.append(file_sha(x))
+            elif x.get("class") == "Directory":
+                out.extend(directory_file_shas(x, file_sha))
+        return out
+    p = v.get("path")
+    if p and os.path.isdir(p):
+        for root, _, files in os.walk(p):
+            for f in files:
+                with open(os.path.join(root, f), "rb") as fh:
+                    out.append(sha1_bytes(fh.read()))
+    return out
 
 
 def _has_record(v):
